@@ -97,6 +97,31 @@ func registerC18Oracles() {
 	Oracle("c18.concurrent_clients", oracleConcurrentClients)
 	// (what inflight): what 0 server 1 udp_server 2 tcp_server 3 llmnr server 4 llmnr client
 	Oracle("c18.shutdown", oracleShutdown)
+	// (first frame, second frame): a TCP connection answers the second frame exactly as a fresh connection to a
+	// server in the same state answers it alone - each request is served from its own bytes, whatever was
+	// received before it on the connection (in particular a longer frame)
+	Oracle("c18.tcp_frames_independent", func(a []Val) (string, string) {
+		run := func(frames [][]byte) []byte {
+			s, err := c18Start(3)
+			if err != nil {
+				return []byte("start failed")
+			}
+			defer s.Stop()
+			s.table.RegisterName("HOSTA", nbtns.Unique, net.IP([]byte{10, 1, 2, 3}), time.Hour)
+			var last []byte
+			for _, f := range frames {
+				last = s.Exchange(f)
+			}
+			_, _, qerr := s.table.QueryName("HOSTA")
+			return append(append([]byte{}, last...), map[bool]byte{true: 1, false: 0}[qerr == nil])
+		}
+		r1 := run([][]byte{a[0].B, a[1].B})
+		r2 := run([][]byte{a[1].B})
+		if !bytes.Equal(r1, r2) {
+			return "C18/tcp-request-not-served-from-its-own-bytes", fmt.Sprintf("frame %x after frame %x (%d bytes) on one connection: response/state %x; alone on a fresh connection: %x", a[1].B, trunc16(a[0].B), len(a[0].B), r1, r2)
+		}
+		return "", ""
+	})
 	// (owners)
 	Oracle("c18.udp_truncation", func(a []Val) (string, string) {
 		owners := int(a[0].Uint())
